@@ -397,7 +397,10 @@ class ControlTheory(Theory):
                 r = StrV(z3.Function("str_strip", S, S)(val.t))
                 return [(st, r)]
             if name == "split":
-                return [(st, TokensV(val.t))]
+                sep = ip.deref(st, pos[0]) if pos else None
+                tv = TokensV(val.t)
+                tv.sep = sep.lit if isinstance(sep, StrV) else ("<whitespace>" if sep is None else "?")
+                return [(st, tv)]
             if name == "encode":
                 return [(st, EncodedV(val.t))]
             if name == "replace":
